@@ -54,7 +54,9 @@ def macro_sets(rng, n):
     return out
 
 
-def run_repo_pipeline(repo, files):
+def run_repo_pipeline(repo, files, then_patches=None):
+    """then_patches: after the first run, ONLY the patch file is replaced (the other inputs keep their time stamps) and the
+    pipeline runs again in the same directory: the result must follow the new patches (regeneration is a function of its inputs)."""
     inc, h, mm, patches, sc = files
     d = tempfile.mkdtemp(prefix="vf_c20g_")
     try:
@@ -73,6 +75,15 @@ def run_repo_pipeline(repo, files):
                            stderr=subprocess.STDOUT, timeout=300)
         if r.returncode != 0:
             return None, r.stdout.decode(errors="replace")[-400:]
+        if then_patches is not None:
+            import time
+            time.sleep(1.1)  # a file system with one-second time stamps must see the patch file as newer
+            with open(os.path.join(pp, "patches_macros.h"), "w") as f:
+                f.write(then_patches)
+            r = subprocess.run([sys.executable, "-c", code], cwd=d, env=dict(os.environ, PYTHONPATH=d), stdout=subprocess.PIPE,
+                               stderr=subprocess.STDOUT, timeout=300)
+            if r.returncode != 0:
+                return None, r.stdout.decode(errors="replace")[-400:]
         with open(os.path.join(pp, "shortcode_resolved.h")) as f:
             return f.read(), ""
     finally:
@@ -104,7 +115,15 @@ def oracle(files):
 
 def check_case(item):
     repo, files, idx = item
-    got, err = run_repo_pipeline(repo, files)
+    then = None
+    if isinstance(idx, int) and idx % 4 == 3:
+        # history case: run with these patches first, then change ONLY the patch file and regenerate in the same directory
+        inc, h, mm, patches, sc = files
+        then = patches.replace("mem_store_u32(EA, V)", "mem_store_s16(EA, V)") + "#define fSAT(A) (A)\n"
+        files = (inc, h, mm, then, sc)
+        got, err = run_repo_pipeline(repo, (inc, h, mm, patches, sc), then_patches=then)
+    else:
+        got, err = run_repo_pipeline(repo, files)
     if got is None:
         return dict(idx=idx, status="pipeline-failed", detail=err)
     res, order = BD.insn_lines(got)
